@@ -388,6 +388,13 @@ def run(ctx):
                         continue
                     check(ctx, 'x = a.%s%s%s%s;' % (g1, w, g2, f), 'keyword_property_comments')
                     ctx.hit('keyword_property_comments')
+                # ... and as keys of an object literal and names of accessors
+                for tpl in ('x = {%s%s%s: 1, b: 2};', 'x = {a: 0,%s%s%s: 1};', 'x = {get %s%s%s() { return 1; }};'):
+                    idx += 1
+                    if idx % ctx.nshards != ctx.shard or (ctx.tier == 'quick' and (idx // ctx.nshards) % 2):
+                        continue
+                    check(ctx, tpl % (g1, w, g2), 'keyword_key_comments')
+                    ctx.hit('keyword_property_comments')
 
 
 def replay(ctx, witness):
